@@ -46,6 +46,7 @@ type Bus struct {
 	pending   int64
 	closed    chan struct{}
 	serial    wire.EnvelopeSerializer // optional: every envelope goes through this serializer
+	drop      func(*wire.Envelope) bool
 	wg        sync.WaitGroup
 	delivered int64
 }
@@ -57,6 +58,9 @@ func New(seed int64, noise int) *Bus {
 
 // SetSerializer makes every envelope take a round trip through ser before delivery.
 func (b *Bus) SetSerializer(ser wire.EnvelopeSerializer) { b.serial = ser }
+
+// SetDrop installs a filter; envelopes for which it returns true are discarded at publication.
+func (b *Bus) SetDrop(f func(*wire.Envelope) bool) { b.mu.Lock(); b.drop = f; b.mu.Unlock() }
 
 // AddTap registers an observer of delivered envelopes.
 func (b *Bus) AddTap(t Tap) { b.mu.Lock(); b.taps = append(b.taps, t); b.mu.Unlock() }
@@ -123,7 +127,11 @@ func (b *Bus) SubscribeClient(c wire.Consumer, addr map[wallet.BackendID]wire.Ad
 func (b *Bus) Publish(ctx context.Context, e *wire.Envelope) error {
 	b.mu.Lock()
 	rw := b.rewriters[wire.Keys(e.Sender)]
+	drop := b.drop
 	b.mu.Unlock()
+	if drop != nil && drop(e) {
+		return nil
+	}
 	out := []*wire.Envelope{e}
 	if rw != nil {
 		out = rw(e)
